@@ -30,7 +30,8 @@ ASSUMPTIONS = [
 ]
 
 ROOT = "capsule"  # the upload directory inside the sandbox; capsule-secret / capsule2 are prefix-sharing siblings
-TOKENS = {"none": None, "one": ["tok-1"], "several": ["tok-1", "tok-2", "tok 3"], "blank": [""], "blanks": ["  ", ""]}
+TOKENS = {"none": None, "one": ["tok-1"], "several": ["tok-1", "tok-2", "tok 3"], "blank": [""], "blanks": ["  ", ""],
+          "accented": ["caf\u00e9-tok", "\u212b-tok"]}  # composed forms; 'cafe\u0301-tok' / '\u00c5-tok' are different strings
 
 
 @st.composite
@@ -82,7 +83,8 @@ def request_st(draw, spec):
     if ("aim-existing" in labels or "through-link" in labels) and draw(st.booleans()):
         n = 0  # deletes need an existing target to succeed
     content = bytes((i * 13 + 5) & 0xFF for i in range(n))
-    tok = draw(st.sampled_from([None, "tok-1", "tok-2", "wrong", "", "  ", "tok-1;token=wrong", "wrong;token=tok-1"]))
+    tok = draw(st.sampled_from([None, "tok-1", "tok-2", "wrong", "", "  ", "tok-1;token=wrong", "wrong;token=tok-1",
+                                "caf\u00e9-tok", "cafe\u0301-tok", "\u00c5-tok", "\u212b-tok"]))
     mime = draw(st.sampled_from([None, "text/gemini", "text/plain", "image/png", "application/x-evil", "", " "]))
     return {"path": path, "size": n, "content": b2s(content), "token": tok, "mime": mime, "labels": labels}
 
@@ -99,7 +101,7 @@ def case_st(draw, with_fault=True):
                               "abs": draw(st.booleans())})
     if draw(st.integers(0, 3)) == 0:
         spec["nodes"].append({"p": ROOT + "/" + draw(st.sampled_from(["loop", "again"])), "t": "link", "to": "SELF", "abs": False})
-    cfg = {"tokens": draw(st.sampled_from(["none", "none", "one", "several", "blank", "blanks"])),
+    cfg = {"tokens": draw(st.sampled_from(["none", "none", "one", "several", "blank", "blanks", "accented"])),
            "max_size": draw(st.sampled_from([64, 64, None, None, 0, 1])),
            "types": draw(st.sampled_from([None, None, ["text/gemini", "text/plain"]])),
            "delete": draw(st.sampled_from([True, True, False])),
@@ -231,11 +233,14 @@ def run_case(case: dict):
                 "new_dirs": len(new_dirs), "raised": raised, **fault_info}
         # reference preconditions (on the request as parsed)
         tokens = TOKENS[cfg["tokens"]]
+        # the token as it was sent (documented: the last duplicate wins, surrounding blanks are stripped) - not as the
+        # library's parser reports it
+        sent_tok = None if req["token"] is None else req["token"].split(";token=")[-1].split(";")[0].strip()
         pre = {
-            "token": (not tokens) or (treq.token is not None and treq.token != "" and treq.token in tokens),
-            "size": treq.size <= (cfg["max_size"] if cfg["max_size"] is not None else 10 * 1024 * 1024),
-            "mime": cfg["types"] is None or treq.mime_type in cfg["types"],
-            "delete": treq.size != 0 or cfg["delete"],
+            "token": (not tokens) or (sent_tok is not None and sent_tok != "" and sent_tok in tokens),
+            "size": req["size"] <= (cfg["max_size"] if cfg["max_size"] is not None else 10 * 1024 * 1024),
+            "mime": cfg["types"] is None or ("text/gemini" if req["mime"] is None else req["mime"].strip()) in cfg["types"],
+            "delete": req["size"] != 0 or cfg["delete"],
         }
         info["pre"] = "".join(k[0] if v else "-" for k, v in pre.items())
         if gone_dirs:
@@ -347,6 +352,78 @@ def enum_faults(tier):
                            "through": "handler" if nth % 2 else "protocol"}
 
 
+def enum_relink(tier):
+    """Two requests on one handler; between them a directory on the path is replaced by a symlink leading outside."""
+    for name in ("a.gmi", "new.gmi"):
+        for op2 in ("upload", "delete"):
+            for target in ("outside", "capsule-secret", "outside/dir"):
+                for through in ("handler", "protocol"):
+                    yield {"relink": True, "name": name, "op2": op2, "target": target, "through": through}
+
+
+def run_relink(case: dict):
+    setup_logging()
+    import shutil
+
+    from nauyaca.protocol.request import TitanRequest
+    from nauyaca.server.handler import FileUploadHandler
+
+    spec = {"root": ROOT, "nodes": [{"p": ROOT + "/sub", "t": "dir"}, {"p": ROOT + "/sub/a.gmi", "t": "file", "c": "text"},
+                                    {"p": "outside/a.gmi", "t": "file", "c": "text"}, {"p": "capsule-secret/a.gmi", "t": "file", "c": "text"},
+                                    {"p": "outside/dir/a.gmi", "t": "file", "c": "text"}]}
+    S = fsgen.build(spec)
+    try:
+        updir = os.path.join(S, ROOT)
+        handler = FileUploadHandler(upload_dir=updir, enable_delete=True)
+
+        def send(size):
+            line = f"titan://localhost/sub/{case['name']};size={size};mime=text/gemini"
+            content = b"X" * size
+            if case["through"] == "protocol":
+                from nauyaca.server.protocol import GeminiServerProtocol
+
+                async def scenario(loop):
+                    sim = srvsim.Sim(loop)
+                    h = srvsim.build_handler(sim, {"kind": "value", "status": 20, "meta": "text/gemini", "body": "x"})
+                    tr = FakeTransport(loop)
+                    tr.attach(GeminiServerProtocol(h, None, handler))
+                    tr.feed(line.encode() + b"\r\n" + content)
+                    await vloop.settle(8)
+                    return tr.written()
+
+                S_ = vloop.run(scenario)
+                return int(S_[:2]) if S_[:2].isdigit() else None
+            treq = TitanRequest.from_line(line)
+            treq.content = content
+
+            async def one(loop):
+                return (await handler.handle_upload(treq)).status
+
+            try:
+                return vloop.run(one)
+            except Exception:
+                return 40
+
+        st1 = send(7)
+        # the directory is replaced by a symlink that leads out of the upload directory
+        shutil.rmtree(os.path.join(updir, "sub"))
+        os.symlink(os.path.join(S, case["target"]), os.path.join(updir, "sub"))
+        before = fsgen.snapshot(S)
+        st2 = send(9 if case["op2"] == "upload" else 0)
+        after = fsgen.snapshot(S)
+        created, removed, changed, _nd, _gd = diff(before, after)
+        info = {"status": st2, "first": st1, "pre": "relink"}
+        for e in created + removed + changed:
+            if not e[0].startswith(ROOT + "/") or e[0].startswith(ROOT + "/sub/"):
+                return viol("change-outside-upload-dir", f"after {ROOT}/sub became a link to {case['target']}, the second request ({case['op2']} of "
+                            f"/sub/{case['name']}, status {st2}) changed {e[0]!r} behind the link", **info)
+        if st2 is not None and 20 <= st2 <= 29:
+            return viol("change-outside-upload-dir", f"the second request was answered {st2} although its path now leads out of the upload directory", **info)
+        return ok(**info)
+    finally:
+        fsgen.destroy(S)
+
+
 def enum_preconditions(tier):
     """Every combination of token configuration x presented token x media-type list x media type x delete on/off x
     size {0, 3, 64, 65 with limit 64} x existing/new target, through the handler and the protocol, on a tree that also
@@ -371,6 +448,11 @@ def enum_preconditions(tier):
 
 
 LANES = [
+    Lane(name="relink", run_case=run_relink, enumerate=enum_relink, budget={"quick": 1, "thorough": 1},
+         shards={"quick": 8, "thorough": 8}, nontrivial=lambda c, v: True, labels=lambda c, v: [c["op2"], c["through"], "to:" + c["target"]],
+         exhaustive=True,
+         rule="two requests on one long-lived handler; between them a directory on the path is replaced by a symlink to "
+              "outside: the second request must not touch anything behind the link"),
     Lane(name="preconditions", run_case=run_case, enumerate=enum_preconditions, budget={"quick": 1, "thorough": 1},
          shards={"quick": 16, "thorough": 16}, nontrivial=lambda c, v: True, labels=_labels, bucket=_bucket, exhaustive=True,
          rule="exhaustive precondition matrix (tokens x token x media types x media type x delete x size x target) on a tree "
